@@ -4,6 +4,7 @@ package main
 // the acyclic CFG obtained by cutting loops at their headers).
 
 import (
+	"strconv"
 	"fmt"
 	"go/constant"
 	"go/token"
@@ -273,6 +274,9 @@ func (fr *Frame) analyzeLoops() {
 		}
 		if fr.fc != nil {
 			li.spec = fr.fc.Loops[i]
+			if li.spec == nil {
+				li.spec = fr.fc.Loops[-1]
+			}
 		}
 		li.mods = fr.v.eng.blocksMods(li.blocks, li.inLoop)
 		// names: phis by their comment, range index by DebugRef
@@ -373,6 +377,43 @@ func (fr *Frame) run(st0 *State, args []Val) {
 			st = fr.enterLoop(b, li, st)
 		}
 		fr.execBlock(b, st)
+	}
+}
+
+// afterLoopAsserts: site assertions "at afterloop N" are checked on every edge that leaves the
+// region dominated by the header of loop N (normal exit, break bodies and the code that follows
+// the loop in the same branch included), in the state at the end of the source block. sinceloop() refers to the state on first arrival at the header.
+func (fr *Frame) afterLoopAsserts(from, to *ssa.BasicBlock, st *State, cond string) {
+	v := fr.v
+	if v.fc == nil || !fr.top || len(v.fc.Asserts) == 0 {
+		return
+	}
+	for _, as := range v.fc.Asserts {
+		w := strings.Fields(as.Site)
+		if len(w) != 2 || w[0] != "afterloop" {
+			continue
+		}
+		n, err := strconv.Atoi(w[1])
+		if err != nil {
+			continue
+		}
+		for _, li := range fr.loops {
+			// "after loop N": control leaves the region dominated by the loop's header (the loop, its
+			// break bodies and whatever follows it in the same branch)
+			if li.ordinal != n || !li.header.Dominates(from) || li.header.Dominates(to) {
+				continue
+			}
+			env := fr.specEnv(st, nil)
+			env.retBlock = from
+			env.atSite = true
+			env.li = li
+			g, extra := env.boolTerm(as.Cl.Expr)
+			v.siteCount["assert."+as.Label]++
+			pos := from.Instrs[len(from.Instrs)-1].Pos()
+			o := v.addObl(st, "assert", fmt.Sprintf("%s#%d", as.Label, v.siteCount["assert."+as.Label]), implies(cond, g), as.Cl.Text, pickProps(as.Cl, v.fc.Serves), pos)
+			o.Extra = extra
+			v.assertHits[as.Label]++
+		}
 	}
 }
 
@@ -729,6 +770,7 @@ func (fr *Frame) execBlock(b *ssa.BasicBlock, st *State) {
 func (fr *Frame) setEdge(from, to *ssa.BasicBlock, st *State, cond string) {
 	v := fr.v
 	name := v.smt.define(fmt.Sprintf("%sedge.b%d.b%d", fr.prefix, from.Index, to.Index), "Bool", cond)
+	fr.afterLoopAsserts(from, to, st, name)
 	if to.Dominates(from) {
 		fr.backEdge(from, to, st, name)
 		return
@@ -882,7 +924,10 @@ func (fr *Frame) execInstr(st *State, in ssa.Instruction) {
 		v.setHeap(st, vk, sto(v.heap(st, vk), r, fmt.Sprintf("((as const (Array %s %s)) %s)", ks, v.smt.sortOf(m.Elem()), v.smt.zeroOf(m.Elem()))))
 		fr.vals[x] = Val{T: r}
 	case *ssa.MakeChan:
-		fr.vals[x] = Val{T: v.newRef(st, "chan")}
+		r := v.newRef(st, "chan")
+		fr.vals[x] = Val{T: r}
+		nk := v.ghostKey("nrecv", "(Array Int Int)")
+		v.setHeap(st, nk, sto(v.heap(st, nk), r, "0")) // nothing received from a new channel yet
 	case *ssa.MakeClosure:
 		fr.vals[x] = Val{T: v.newRef(st, "closure")}
 		v.smt.note("closure value " + x.Fn.Name() + " treated as opaque")
@@ -978,6 +1023,9 @@ func (fr *Frame) execUnOp(st *State, x *ssa.UnOp) {
 			v.smt.assert(v.closedFact(n, x.Type(), v.alloc(st), 0))
 		}
 		fr.countRecv(st, fr.term(st, x.X), "true")
+		if _, isTuple := x.Type().(*types.Tuple); !isTuple {
+			fr.chanMsgInv(st, x.Type(), fr.vals[x].T, false, x.Pos())
+		}
 		v.smt.note("channel receive yields an unconstrained value")
 	case token.XOR:
 		f := v.smt.declareFun("bitnot", []string{"Int"}, "Int")
